@@ -120,6 +120,13 @@ def directed(default_params):
             steps.append({"op": "rename.permute", "slot": 0,
                           "perms": [[0, a], [0, b], [0, a + b]]})
     out.append(("permute-seq", P, steps))
+    # Term-level operations on long-lived Term objects with in-place use of the results
+    steps = [_expr_step(), _big_expr_step(1)]
+    for k in range(0, 36):
+        steps.append({"op": "rename.term", "slot": k % 2, "how": ["permute", "sc", "permute",
+                                                                  "gen"][k % 4],
+                      "pick": 7 * k + k // 4, "perms": [[k, 3 * k + 1], [k + 1, k]][:1 + k % 2]})
+    out.append(("term-level", P, steps))
     # D5 expand_itmd with targets equal to the definition's own contracted names
     steps = []
     for pick in range(0, 22):
